@@ -124,6 +124,40 @@ def posteriors(inst):
     return (num / den).tolist()
 
 
+def posteriors_single_factorised(inst):
+    """Same model, for ONE individual without relatives (T = 0, two IBD classes): given the allele pairs (a_c) of all columns the
+    reads are independent, each being on side 0 or 1 with probability 1/2 along its whole length, so
+        P(g at c | reads)  ~  sum over (a_1..a_n) [genotype(a_c) = g] prod_c P(a_c) prod_r 1/2 (prod_{c in r} em(r,c,a_c,0) + prod_{c in r} em(r,c,a_c,1)).
+    Cost 4^n * (entries), independent of the number of reads: used where 2^R side vectors are out of reach (R = 13..18)."""
+    assert inst["n_ind"] == 1 and not inst["triples"]
+    n = len(inst["positions"])
+    col = {p: c for c, p in enumerate(inst["positions"])}
+    pa = []
+    for c in range(n):
+        pr = inst["priors"][0][c]
+        raw = [pr[0], pr[1] / 2.0, pr[1] / 2.0, pr[2]]  # a = (hap0 allele) + 2 * (hap1 allele); the two het assignments share the genotype
+        z = sum(raw)
+        pa.append([x / z for x in raw])
+    reads = [[(col[p], al, eps(q)) for p, al, q in rd["vars"] if p in col] for rd in inst["reads"]]
+    num = [[0.0] * 3 for _ in range(n)]
+    den = 0.0
+    for a in itertools.product(range(4), repeat=n):
+        w = 1.0
+        for c in range(n):
+            w *= pa[c][a[c]]
+        for rd in reads:
+            s0 = s1 = 1.0
+            for c, al, e in rd:
+                h0, h1 = a[c] & 1, (a[c] >> 1) & 1
+                s0 *= (1 - e) if h0 == al else e
+                s1 *= (1 - e) if h1 == al else e
+            w *= 0.5 * (s0 + s1)
+        den += w
+        for c in range(n):
+            num[c][(a[c] & 1) + ((a[c] >> 1) & 1)] += w
+    return [[[x / den for x in num[c]] for c in range(n)]]
+
+
 def posteriors_naive(inst):
     """Second, dumber formulation for the self-test: explicit enumeration of complete paths (sides x t-sequence x
     a-sequence), pure Python; only for tiny instances."""
@@ -213,5 +247,22 @@ def selftest():
             for c in range(n):
                 for g in range(3):
                     assert abs(a[i][c][g] - b[i][c][g]) < 1e-10, (inst, a, b)
+        n_ok += 1
+    # the factorised single-individual formulation against the side-vector enumeration
+    for k in range(6):
+        n = rng.randint(1, 3)
+        positions = [10 * (c + 1) for c in range(n)]
+        reads = []
+        for r in range(rng.randint(1, 6)):
+            cols = sorted(rng.sample(positions, rng.randint(1, n)))
+            reads.append({"ind": 0, "vars": [[p, rng.randint(0, 1), rng.choice([0, 3, 10, 30, 300])] for p in cols]})
+        priors = [[[rng.random() + 0.01 for _ in range(3)] for _ in range(n)]]
+        priors = [[[x / sum(p) for x in p] for p in row] for row in priors]
+        inst = {"n_ind": 1, "triples": [], "positions": positions, "reads": reads, "priors": priors, "recomb": [rng.choice([0, 5, 40]) for _ in range(n)]}
+        a = posteriors(inst)
+        b = posteriors_single_factorised(inst)
+        for c in range(n):
+            for g in range(3):
+                assert abs(a[0][c][g] - b[0][c][g]) < 1e-10, (inst, a, b)
         n_ok += 1
     return n_ok
